@@ -277,7 +277,7 @@ func c02ValueLists() [][]timing.Frac {
 func runC02(e *Env) {
 	e.R.Rule = "all histories up to the stated length over {chord C, chord G7, rest} x 29 duration lists (unit and non-unit numerators, denominators not dividing 960, exactly-half-tick values, several fractions per instance), on 1 and 3 tracks; note-on/off ticks compared with exact rational arithmetic, either neighbour on exact ties; distinct = distinct history; non-trivial = contains a fractional or multi-value duration or a rest"
 	e.R.Assume("reference: math/big rationals; T read from the file header; same-tick order only constrained per track (release before strike of the same key)")
-	e.R.Exclude("total length >= 2^28 ticks; chords with a pitch doubled inside the chord (strike-before-release is then not observable per key)")
+	e.R.Exclude("chords with a pitch doubled inside the chord (strike-before-release is then not observable per key)")
 	m, err := newModel(e)
 	if err != nil {
 		panic(err)
@@ -386,6 +386,35 @@ func runC02(e *Env) {
 		e.R.Trace(1)
 	})
 	e.R.AddPart(ev.Part{Name: "cli-histories", Enumerated: "real binary: R[1/3] X C[1] for each timed shape X; all pairs over the 12-shape sub-alphabet followed by C[1] on 1 and 3 tracks", Executions: int64(len(cliCases)), Exhaustive: true})
+	// durations around what a delta can state (2^28 ticks = 279 620.27 beats) and around the
+	// 32-bit tick counters (2^32 ticks = 4 473 924.27 beats): refused, or at the exact ticks
+	var huge []playCase
+	chord0 := mk(shape{0, []timing.Frac{fr(1, 1)}})
+	for _, beats := range []uint64{279620, 279621, 300000, 4473924, 4473925, 4473926, 5000000, 8947849, 1 << 40} {
+		v := []timing.Frac{{Num: beats, Den: 1}}
+		for _, path := range []string{"lib", "cli"} {
+			huge = append(huge,
+				playCase{Path: path, Insts: []refplay.Inst{chord0, {Values: v}, chord0}},
+				playCase{Path: path, Insts: []refplay.Inst{{Chord: chord0.Chord, Values: v}, chord0}},
+				playCase{Path: path, Insts: []refplay.Inst{chord0, {Values: v}}, Cfg: writeCfg{Tracks: 2}},
+				// two rests that only together pass the limit
+				playCase{Path: path, Insts: []refplay.Inst{chord0, {Values: []timing.Frac{{Num: beats / 2, Den: 1}}}, {Values: []timing.Frac{{Num: beats - beats/2, Den: 1}}}, chord0}},
+				// many tracks: an idle track waits for the whole piece
+				playCase{Path: path, Insts: []refplay.Inst{{Chord: chord0.Chord, Values: []timing.Frac{{Num: beats / 2, Den: 1}}}, {Chord: chord0.Chord, Values: []timing.Frac{{Num: beats - beats/2, Den: 1}}}}, Cfg: writeCfg{Tracks: 8}},
+			)
+		}
+	}
+	mc.ParFor(len(huge), func(i int) {
+		c := huge[i]
+		res := runWrite(c.Path, refplay.YAML(c.Insts), c.Cfg)
+		if res.Err != "" && !res.Crashed && !res.Hang {
+			e.R.Eval(1)
+			e.R.Outcome("refused")
+			return
+		}
+		c02Eval(e, m, &c, true)
+	})
+	e.R.AddPart(ev.Part{Name: "over-long-durations", Enumerated: "a rest, a chord, a trailing rest on 2 tracks, two rests in a row and two chords on 8 tracks of 279 620 ... 2^40 beats in total (a delta reaches 2^28 ticks at 279 620.27 beats, a 32-bit tick counter wraps at 4 473 924.27 beats), in-process and through the binary: refused, or notes at the exact ticks", Executions: int64(len(huge)), Exhaustive: true})
 	runLong(e, 16, func(c *playCase) {
 		c02Eval(e, m, c, true)
 		c3 := *c
